@@ -221,6 +221,9 @@ func (ia *IngressAnalyzer) getK8sIngressServices(ing *netv1.Ingress) []serviceIn
 	}
 	// add service names from the Ingress rules
 	for _, rule := range ing.Spec.Rules {
+		if rule.IngressRuleValue.HTTP == nil {
+			continue
+		}
 		for _, path := range rule.IngressRuleValue.HTTP.Paths {
 			if path.Backend.Service == nil {
 				ia.logWarning(parser.Ingress + whiteSpace + ingressStr + colon + ruleBackendWarning)
